@@ -500,6 +500,23 @@ pub fn run(ctx: &Ctx) -> i32 {
             }
         }
     }
+    // one long history (the kinds over and over, a restart every 97th and a long gap every 53rd event), for
+    // whatever only arms after many events; appended as the last work item
+    let mut long: Vec<Ev> = vec![];
+    for i in 0..2000usize {
+        let mut e = Ev { kind: KINDS[(i * 7 + i / 9) % KINDS.len()], gap_ms: 1000, latency_ms: 0, restart_downtime_ms: 0 };
+        if i % 53 == 52 {
+            e.gap_ms = 5100;
+        }
+        if i % 31 == 30 {
+            e.latency_ms = 2900;
+        }
+        if i % 97 == 96 {
+            e.restart_downtime_ms = 100;
+        }
+        long.push(e);
+    }
+    hs.push(long);
     let n_items = hs.len();
     let parts = par::fork_reduce(
         n_items,
@@ -551,6 +568,7 @@ pub fn run(ctx: &Ctx) -> i32 {
         ("distinct_nontrivial", json!(st.trusted_evals)),
         ("rule", json!("every history of poll events up to the stated length over 9 answer kinds with at most the stated number of timing/restart deviations (gap 4.9/5.1/1001 s, reply latency 10 ms/2.9 s, restart after 0.1/10/2000 s) x drift {1, 50} ppm x uptime {100, 5000} s x adversary (error sign, report valid at request or reply); clients (long-lived and newly opened) queried at each publication, just before the next event, 1 ns either side of as-of+5 s and void-after, and up to 1 h after the last event; non-trivial = evaluations that returned a trusted status")),
         ("max_history_length", json!(len)),
+        ("long_history_events", json!(2000)),
         ("max_deviations", json!(devs)),
         ("histories", json!(st.histories)),
         ("event_lists", json!(n_items)),
